@@ -372,9 +372,179 @@ func genWorld(r *Rng, cfg *genCfg) *World {
 		}
 		w.Objs = append(w.Objs, Obj{Kind: "banp", Banp: b})
 	}
+	if cfg.ingress {
+		genIngressObjs(r, w, nss)
+	}
 	// document order is arbitrary
 	if r.P(70) {
 		Shuffle(r, w.Objs)
 	}
 	return w
+}
+
+// genIngressObjs adds Services, Ingresses and Routes targeting the generated workloads.
+func genIngressObjs(r *Rng, w *World, nss []string) {
+	type wlInfo struct {
+		ns     string
+		labels []KV
+		ports  []CPort
+	}
+	var wls []wlInfo
+	for _, o := range w.Objs {
+		switch o.Kind {
+		case "wl":
+			wls = append(wls, wlInfo{o.Wl.NS, o.Wl.Labels, o.Wl.Ports})
+		case "pod":
+			wls = append(wls, wlInfo{o.Pod.NS, o.Pod.Labels, o.Pod.Ports})
+		}
+	}
+	if len(wls) == 0 {
+		return
+	}
+	nSvc := r.Range(1, 3)
+	type svcInfo struct {
+		ns, name string
+		ports    []SvcPort
+	}
+	var svcs []svcInfo
+	for i := 0; i < nSvc; i++ {
+		t := Pick(r, wls)
+		s := &Service{NS: t.ns, Name: fmt.Sprintf("svc%d", i)}
+		// selector: a subset of the target's labels (empty labels -> sometimes no selector at all)
+		if len(t.labels) > 0 {
+			n := r.Range(1, len(t.labels))
+			s.Selector = append([]KV{}, t.labels[:n]...)
+		} else if r.P(50) {
+			s.Selector = []KV{{"app", Pick(r, lblVals)}}
+		}
+		np := r.Range(1, 3)
+		usedNum, usedName := map[int]bool{}, map[string]bool{}
+		for j := 0; j < np; j++ {
+			sp := SvcPort{Port: Pick(r, []int{80, 443, 8080, 53, 9090, 8000}), Proto: Pick(r, []string{"TCP", "TCP", "TCP", "UDP", ""})}
+			if usedNum[sp.Port] {
+				continue
+			}
+			usedNum[sp.Port] = true
+			if r.P(60) {
+				nm := Pick(r, []string{"web", "api", "http", "dns"})
+				if !usedName[nm] {
+					usedName[nm] = true
+					sp.Name = nm
+				}
+			}
+			switch k := r.Intn(100); {
+			case k < 35: // no targetPort: defaults to port
+			case k < 70:
+				// a container port of the target (any protocol), or an unrelated number
+				n := Pick(r, portPool)
+				if len(t.ports) > 0 && r.P(75) {
+					n = Pick(r, t.ports).Port
+				}
+				sp.TargetNum = &n
+			default:
+				nm := Pick(r, portNames)
+				if len(t.ports) > 0 && r.P(75) {
+					if c := Pick(r, t.ports); c.Name != "" {
+						nm = c.Name
+					}
+				}
+				sp.TargetName = &nm
+			}
+			s.Ports = append(s.Ports, sp)
+		}
+		if len(s.Ports) == 0 {
+			continue
+		}
+		w.Objs = append(w.Objs, Obj{Kind: "svc", Svc: s})
+		svcs = append(svcs, svcInfo{s.NS, s.Name, s.Ports})
+	}
+	if len(svcs) == 0 {
+		return
+	}
+	backendFor := func(sv svcInfo) IngBackend {
+		b := IngBackend{Svc: sv.name}
+		sp := Pick(r, sv.ports)
+		switch k := r.Intn(100); {
+		case k < 45:
+			n := sp.Port
+			b.PortNum = &n
+		case k < 70 && sp.Name != "":
+			nm := sp.Name
+			b.PortName = &nm
+		case k < 85: // a number that is (maybe) only a targetPort, or nothing of the service
+			n := Pick(r, portPool)
+			if sp.TargetNum != nil {
+				n = *sp.TargetNum
+			}
+			b.PortNum = &n
+		default:
+			nm := Pick(r, []string{"web", "nosuch"})
+			b.PortName = &nm
+		}
+		if r.P(8) {
+			b.Svc = "nosuchsvc"
+		}
+		return b
+	}
+	nIng := r.Intn(3)
+	for i := 0; i < nIng; i++ {
+		sv := Pick(r, svcs)
+		ing := &Ingress{NS: sv.ns, Name: fmt.Sprintf("ing%d", i)}
+		if r.P(30) {
+			b := backendFor(sv)
+			ing.Default = &b
+		}
+		nr := r.Intn(3)
+		for j := 0; j < nr; j++ {
+			var bs []IngBackend
+			for k := r.Range(1, 2); k > 0; k-- {
+				// backends name services of the ingress's own namespace
+				var same []svcInfo
+				for _, x := range svcs {
+					if x.ns == sv.ns {
+						same = append(same, x)
+					}
+				}
+				bs = append(bs, backendFor(Pick(r, same)))
+			}
+			ing.Rules = append(ing.Rules, bs)
+		}
+		if ing.Default == nil && len(ing.Rules) == 0 {
+			b := backendFor(sv)
+			ing.Default = &b
+		}
+		w.Objs = append(w.Objs, Obj{Kind: "ing", Ing: ing})
+	}
+	nRt := r.Intn(3)
+	if nIng == 0 && nRt == 0 {
+		nRt = 1
+	}
+	for i := 0; i < nRt; i++ {
+		sv := Pick(r, svcs)
+		rt := &Route{NS: sv.ns, Name: fmt.Sprintf("rt%d", i), ToKind: Pick(r, []string{"Service", "Service", "", "Other"}), ToName: sv.name}
+		if r.P(30) {
+			o := Pick(r, svcs)
+			rt.Alt = append(rt.Alt, [2]string{Pick(r, []string{"Service", ""}), o.name})
+		}
+		sp := Pick(r, sv.ports)
+		switch k := r.Intn(100); {
+		case k < 30: // no port: all service ports
+		case k < 50:
+			n := sp.Port
+			rt.TPortNum = &n
+		case k < 65 && sp.TargetNum != nil:
+			n := *sp.TargetNum
+			rt.TPortNum = &n
+		case k < 85 && sp.Name != "":
+			nm := sp.Name
+			rt.TPortName = &nm
+		default:
+			nm := Pick(r, portNames)
+			if sp.TargetName != nil {
+				nm = *sp.TargetName
+			}
+			rt.TPortName = &nm
+		}
+		w.Objs = append(w.Objs, Obj{Kind: "route", Route: rt})
+	}
 }
